@@ -7,6 +7,7 @@ With a name, copy into /verif/seeded/<name>/ with meta.json."""
 import json, os, shutil, subprocess, sys, tempfile
 seed, prop = sys.argv[1], sys.argv[2]
 name = sys.argv[3] if len(sys.argv) > 3 else None
+first = sys.argv[4] if len(sys.argv) > 4 else None
 patch = os.path.join(seed, 'patch.diff')
 demo = os.path.join(seed, 'demo.py')
 def sh(cmd, cwd=None, env=None):
@@ -72,6 +73,7 @@ if name and valid:
                   '/verif/tools/baseline.py <scratch>  (678 stable tests pass)',
                   'git -C /repo apply patch.diff; ./tx check <each property>; git -C /repo checkout -- .']),
         detected_by=dict((k, v['lines']) for k, v in detect.items() if v['rc'] == 1),
-        repo_head=sh('git -C /repo rev-parse --short HEAD')[1].strip())
+        repo_head=sh('git -C /repo rev-parse --short HEAD')[1].strip(),
+        detected_on_first_run=first)
     json.dump(meta, open(os.path.join(dst, 'meta.json'), 'w'), indent=1)
     print('stored', dst)
